@@ -998,13 +998,16 @@ impl AssemblyCode {
                     })),
                     Operation::Gt => {
                         let label3 = format!(".fixup{}", nb_fixes);
+                        // Protected like the BEQ of a '>' test: the branch after it needs the
+                        // compare's carry even if the optimizer (run again after inlining)
+                        // can tell that this one is never taken
                         self.code.push(AsmLine::Instruction(AsmInstruction {
                             mnemonic: AsmMnemonic::BEQ,
                             dasm_operand: label3.clone(),
                             cycles: 2,
                             cycles_alt: Some(3),
                             nb_bytes: 2,
-                            protected: false,
+                            protected: true,
                         }));
                         if signed {
                             self.code.push(AsmLine::Instruction(AsmInstruction {
